@@ -48,9 +48,9 @@ Init ==
   /\ beh = [r \in Ranks |-> Unset]
   /\ finfo \in [Files -> [usable : BOOLEAN, rank : Ranks]]
   /\ genRank = 0
-  /\ \E nff \in BOOLEAN, xf \in {""} \cup Files :     \* -rapid.nofailfile; -rapid.failfile naming one of the files
+  /\ \E nff \in BOOLEAN, xf \in {""} \cup Files, dl \in BOOLEAN :     \* -rapid.nofailfile; -rapid.failfile naming one of the files; a test deadline
        /\ pc = "list"
-       /\ cfg = [checks |-> Checks, base |-> <<0, 0, 0, 1>>, nofailfile |-> nff, failfile |-> xf, expectFF |-> Files, deadline |-> FALSE]
+       /\ cfg = [checks |-> Checks, base |-> <<0, 0, 0, 1>>, nofailfile |-> nff, failfile |-> xf, expectFF |-> Files, deadline |-> dl]
   /\ ffq = <<>> /\ ff = "" /\ pend = "" /\ valid = 0 /\ invalid = 0 /\ seed = <<0, 0, 0, 1>> /\ cur = NoCur /\ flag = FALSE
   /\ e1 = NoErr /\ e2 = NoErr /\ buf = NoStream /\ best = NoStream /\ orig = NoStream /\ sErr = NoErr /\ cache = {}
   /\ shrinks = 0 /\ rep = NoRep /\ tbFailed = FALSE /\ tbFailNow = FALSE /\ viol = {}
@@ -156,6 +156,19 @@ DRet == /\ \/ pc = "ret"
            IN Do(V_DoCheckRet(r), E_DoCheckRet(r))
         /\ UNCHANGED mvars
 
+\* Under a test deadline findBug may stop early, before it starts the next random test case (never after one that failed: a failing
+\* case leaves the loop at once).  Design "early_drops_failure": the test is made after the case has run, before its result is looked at.
+EarlyExit == /\ cfg.deadline /\ valid + invalid > 0
+             /\ \/ /\ pc \in {"ff", "gen"} /\ PendHandled /\ ffq = <<>>
+                   /\ valid < cfg.checks /\ invalid < cfg.checks * InvalidMult
+                \/ Design = "early_drops_failure" /\ pc = "repro"
+             /\ LET r == [valid |-> valid, invalid |-> invalid, early |-> TRUE, e1 |-> NoErr, e2 |-> NoErr, buf |-> NoStream]
+                IN IF pc = "repro"
+                   THEN /\ viol' = viol /\ pc' = "report" /\ mon' = [mon EXCEPT !.early = TRUE] /\ e1' = NoErr   \* (the wrong variant forgets the failure)
+                        /\ UNCHANGED <<cfg, ffq, ff, pend, valid, invalid, seed, cur, flag, e2, buf, best, orig, sErr, cache, shrinks, rep, tbFailed, tbFailNow>>
+                   ELSE Do(V_DoCheckRet(r), E_DoCheckRet(r))
+             /\ UNCHANGED mvars
+
 Failing == IsFail(e1) \/ IsFail(e2)
 NeedSave == Failing /\ ~mon.fromFF /\ ~cfg.nofailfile /\ mon.savedFile = ""
 
@@ -171,7 +184,7 @@ Report == /\ pc = "report" /\ rep.kind = "none" /\ ~NeedSave
              THEN LET r == [kind |-> ExpectedKind, valid |-> IF mon.fromFF THEN 0 ELSE valid, seed |-> mon.failSeed,
                             hasseed |-> ~mon.fromFF, failfile |-> IF mon.fromFF THEN ff ELSE mon.savedFile, msg |-> e2.msg]
                   IN Do(V_Errorf(r), E_Errorf(r))
-             ELSE IF valid = cfg.checks
+             ELSE IF valid = cfg.checks \/ (mon.early /\ valid > 0)
                   THEN Do(V_PassLogged(valid), E_PassLogged(valid))
                   ELSE LET r == [NoRep EXCEPT !.kind = "onlygen", !.valid = valid] IN Do(V_Errorf(r), E_Errorf(r))
           /\ UNCHANGED mvars
@@ -189,7 +202,7 @@ End == /\ \/ pc = "done"
        /\ pc' = "end" /\ viol' = viol \cup V_RunEnd(tbFailed, tbFailNow)
        /\ UNCHANGED <<cfg, ffq, ff, pend, valid, invalid, seed, cur, flag, e1, e2, buf, best, orig, sErr, cache, shrinks, rep, tbFailed, tbFailNow, mon, mvars>>
 
-Next == List \/ LogIgnored \/ Load \/ BeginFF \/ BeginGen \/ BeginRepro \/ Run \/ Return \/ SBegin \/ Try \/ Second
+Next == List \/ LogIgnored \/ Load \/ BeginFF \/ BeginGen \/ EarlyExit \/ BeginRepro \/ Run \/ Return \/ SBegin \/ Try \/ Second
         \/ Acc \/ SEnd \/ DRet \/ Capture \/ SaveIt \/ Report \/ Final \/ FailNow \/ End
 
 Spec == Init /\ [][Next]_vars /\ WF_vars(Next)
@@ -203,7 +216,7 @@ C01_Real      == AtEnd /\ rep.kind \in {"failed", "panic"} => mon.finalObs.sig #
 C01_NoPhantom == AtEnd /\ rep.kind \in {"failed", "panic", "flaky"} => mon.realFail
 C01_NotFlaky  == rep.kind # "flaky"
 C02_NoLost    == AtEnd /\ mon.anySig => tbFailed
-C09_Work      == AtEnd /\ rep.kind = "ok" => mon.passes = cfg.checks /\ mon.gens = valid + invalid
+C09_Work      == AtEnd /\ rep.kind = "ok" => (mon.passes = cfg.checks \/ (cfg.deadline /\ mon.early /\ mon.passes > 0)) /\ mon.gens = valid + invalid
 C09_FailNow   == AtEnd /\ tbFailed => tbFailNow
 C05_Smaller   == AtEnd /\ Failing /\ ~mon.fromFF /\ SameErr(e1, e2) => buf.rank <= genRank
 \* every Check terminates
